@@ -9,7 +9,7 @@ import (
 
 func init() {
 	props["C05"] = c05
-	floors["C05"] = map[string]int{"C05.R1": 7, "C05.R2": 9, "C05.R3": 1, "C05.R4": 4, "C05.R5": 2, "C05.R6": 2}
+	floors["C05"] = map[string]int{"C05.R1": 9, "C05.R2": 9, "C05.R3": 1, "C05.R4": 4, "C05.R5": 2, "C05.R6": 2}
 }
 
 // schemeStores lists the stores to <x>.URL.Scheme in a function.
@@ -160,6 +160,13 @@ func c05(r *Report) {
 			if isHTTPS(in) {
 				bad = g.PathTo([]ssa.Instruction{in}, false, nil, isOtherScheme)
 			}
+		}
+		// the session is marked secure before it is asked: no MarkSecure() can
+		// still run after the IsSecure() test of the same exchange
+		for _, c := range calls(handle, "(*M.Session).MarkSecure") {
+			late := g.PathTo([]ssa.Instruction{secs[0]}, false, nil, func(i ssa.Instruction) bool { return i == ssa.Instruction(c) })
+			r.Paths++
+			r.Decide("path", "(*M.Proxy).handle: "+site(handle, c)+" precedes the secure-session test", late == nil, "the IsSecure() test cannot be followed by this MarkSecure()", "the session is marked secure only after IsSecure() was consulted: the first request on such a connection keeps its http scheme and goes upstream in cleartext", c.Pos())
 		}
 		r.Decide("path", "(*M.Proxy).handle: https is the last scheme store", bad == nil, "no scheme store is reachable after the https store", "the forced https scheme is overwritten later (downgrade)", secs[0].Pos())
 		// MarkSecure only where the connection is a *tls.Conn; MarkInsecure never
